@@ -19,7 +19,7 @@ struct HPool { pool: Pool }
 
 fn make_html_pool(xot: &mut Xot, reg: &mut Reg) -> HPool {
     let mut uris = vec![0usize];
-    for u in [XHTML, XHTML_CRATE, MATHML, SVG, "urn:foreign"] { uris.push(reg.ns(xot, u)); }
+    for u in [XHTML, XHTML_CRATE, MATHML, SVG, "urn:foreign?a=1&b=\"2\""] { uris.push(reg.ns(xot, u)); }
     let mut prefixes = vec![0usize];
     for p in ["h", "s", "m", "f"] { prefixes.push(reg.prefix(xot, p)); }
     let mut names = vec![];
@@ -473,6 +473,19 @@ fn main() {
                                      ("serialize_write_with_normalizer", match &w2 { Ok(Ok(())) => Some(&buf2[..]), _ => None }),
                                      ("serialize_string_with_normalizer", match &s2 { Ok(Ok(s)) => Some(s.as_bytes()), _ => None })] {
                     if got != want { out.fail(&case, "html-write-differs", &format!("query {}: {} gives {:?} where serialize_string gives {:?}", qi, label, got.map(String::from_utf8_lossy), want.map(String::from_utf8_lossy))); }
+                }
+                // a writer that fails after k bytes: the call returns an error, it does not panic (k runs over a few places
+                // of the output, so that the failing write is the doctype, a token, a space, an indentation or a line end)
+                if let Some(w) = want {
+                    for k in [0usize, 3, 15, 16, w.len() / 2, w.len().saturating_sub(1)] {
+                        if k >= w.len() { continue; }
+                        let mut fw = xh::common::FailingWriter { left: k };
+                        match guard(|| html.serialize_write(params.clone(), node, &mut fw)) {
+                            Ok(Err(_)) => { stats.bump("html.failing_writer_reported"); }
+                            Ok(Ok(())) => out.fail(&case, "html-failing-writer", &format!("query {}: serialize_write into a writer that fails after {} bytes returned Ok", qi, k)),
+                            Err(()) => out.fail(&case, "html-failing-writer", &format!("query {}: serialize_write into a writer that fails after {} bytes panicked", qi, k)),
+                        }
+                    }
                 }
             }
             stats.bump(if q.indent { "params.indent" } else { "params.plain" });
